@@ -1,3 +1,4 @@
+import DSV.FactsOK.SrcC18
 import DSV.Generated.Facts
 /-! C18 — the comparison that keeps a newer timestamped aggregate, as extracted. -/
 namespace DSV.Props.C18.Facts
